@@ -101,7 +101,8 @@ CONFIG = dict(
     stats=c01_stats,
     nontrivial=c01_nontrivial,
     rule="PRNG worlds (tenants = fake Nextcloud instances with RSA/ECDSA/Ed25519/garbage/no key; backends / allowed / allowall "
-         "configuration, limits, with and without internal secret) x hello attribute vectors: protocol 2.0 tokens built from "
+         "configuration — the backends of one world in three announced through the real etcd backend storage (EtcdKeyUpdated per key, "
+         "urls kept as written, with or without the final slash) —, limits, with and without internal secret) x hello attribute vectors: protocol 2.0 tokens built from "
          "(header alg, signing scheme, signing key, signature mutation, iat/nbf/exp offsets on and around every leeway boundary, sub) "
          "with mutations (alg none, HS* keyed with the published key text, family swap, other tenant's key, bit flip, truncation, "
          "malformed segments), protocol 1.0 tickets of the right/wrong tenant, internal tokens (random 0..64 bytes, wrong/empty "
@@ -123,7 +124,8 @@ CONFIG = dict(
         "are oracle bits (unforgeability assumed)",
         "Routes: for a URL without dot segments the web server that answers is the owner of every configured backend whose "
         "URL is a prefix of it (prefix routing, prefix-free configuration per host)",
-        "capabilities caching/HTTP, gRPC proxy-resume (tryProxyResume), etcd backend storage, session expiry and "
+        "capabilities caching/HTTP, gRPC proxy-resume (tryProxyResume), the etcd client and its watch (the etcd backend storage "
+        "itself is driven through EtcdKeyUpdated in key order, as at start-up), session expiry and "
         "connections closing during a hello are not modelled",
         "a backend answering {type: auth} without auth object is trusted input (crashes processRegister; not a client input)",
     ],
@@ -141,7 +143,8 @@ MANIFEST = dict(
          "implementation's replies.",
     note="Trusted: Lean kernel, extractor, harness, net/url, golang-jwt (restated), crypto oracles. Unforgeability is assumed, "
          "not proved. Found and fixed: backend URLs with dot segments were matched to a configured backend by string prefix while "
-         "the request went to another server of the host.",
+         "the request went to another server of the host; a backend received from etcd with its url written without the final slash "
+         "(/foo) also answered for sibling paths (/foobar): an unconfigured location was given a session of that backend.",
     technique="Lean 4 proof (case analysis of the decision model, induction over op sequences) + regenerated facts + "
               "differential correspondence with spec judge on the implementation trace",
 )
